@@ -1,6 +1,9 @@
-(* Extraction of Model/Heap.v and Model/TimerRun.v for the C11 correspondence (ExtrOcamlBasic only; Z stays inductive). *)
+(* Extraction of Model/Heap.v and Model/TimerRun.v for the C11 correspondence (ExtrOcamlBasic only; Z stays inductive).
+   The source side (invoke_step, wake_needed, xstep) is extracted too: the trace replay evaluates it at every recorded
+   source-side call of the library. *)
 From Coq Require Extraction.
 From Coq Require Import ExtrOcamlBasic.
 From Verif Require Import Word Heap TimerRun.
 Extraction "Extract/c11_model.ml"
-  timeout_program loop_timer_arm loop_timer_delete merge_timer_k ktimer0 kernel_expired set_heap set_np set_dirty interval_config_create config_create dispatch_after_model after_obs hstep dump compact compact_keys empty_heap compute_missed tstep init_state slot_addr capacity.
+  timeout_program loop_timer_arm loop_timer_delete merge_timer_k ktimer0 kernel_expired set_heap set_np set_dirty interval_config_create config_create dispatch_after_model after_obs hstep dump compact compact_keys empty_heap compute_missed tstep init_state slot_addr capacity
+  invoke_step wake_needed x_wakeup xstep obs_state.
